@@ -163,6 +163,17 @@ def attWindow (fork : Fork) (spe slot curMin curMax : Nat) : Bool :=
       (decide (epochAt spe slot = epochAt spe curMin ∨ epochAt spe slot + 1 = epochAt spe curMin) ||
        decide (epochAt spe slot = epochAt spe curMax ∨ epochAt spe slot + 1 = epochAt spe curMax))
 
+/-- fork-choice `get_checkpoint_block(store, root, epoch)` read off the chain view: the voted block and its
+ancestors `(root, slot)` in order; the checkpoint block is the first one at or before the epoch's start slot.
+`none`: the chain view does not reach back that far. -/
+def checkpointOf (targetSlot : Nat) (chain : List (UInt64 × UInt64)) : Option UInt64 :=
+  (chain.find? (fun e => decide (e.2.toNat ≤ targetSlot))).map (·.1)
+
+def targetIsCheckpoint (targetSlot : Nat) (chain : List (UInt64 × UInt64)) (targetRoot : UInt64) : Bool :=
+  match checkpointOf targetSlot chain with
+  | some r => r == targetRoot
+  | none => true
+
 /-- the single participant, when there is exactly one set bit inside the committee -/
 def attVoter (i : AttIn) : Option UInt64 :=
   match i.setBits with
@@ -184,8 +195,12 @@ def attConds (fork : Fork) (i : AttIn) : List Cond :=
   R "signature valid" i.sig,
   I "block seen" i.blockKnown,
   R "block passes validation" (!i.bad),
-  R "target is the checkpoint ancestor of the LMD vote" (!i.blockKnown || i.targetSub == .unk || i.targetIsCkpt),
-  I "implied: target ancestry can be determined" (!i.blockKnown || i.targetSub != .unk),
+  R "target is the checkpoint ancestor of the LMD vote" (!i.blockKnown || i.targetSub == .unk ||
+      (i.targetSub != .no &&
+        targetIsCheckpoint (startSlot i.spe.toNat i.targetEpoch.toNat) ((i.blockRoot, i.blockSlot) :: i.ancestors) i.targetRoot)),
+  I "implied: target ancestry can be determined" (!i.blockKnown || (i.targetSub != .unk &&
+      (i.targetSub == .no ||
+        (checkpointOf (startSlot i.spe.toNat i.targetEpoch.toNat) ((i.blockRoot, i.blockSlot) :: i.ancestors)).isSome))),
   I "finalized checkpoint is an ancestor of the block" (!i.blockKnown || i.blockIsFin || i.finSub == .yes),
   R "implied: LMD vote consistent (block slot <= attestation slot; validate_on_attestation)"
       (!i.blockKnown || decide (i.blockSlot.toNat ≤ i.slot.toNat)),
@@ -234,9 +249,15 @@ def aggConds (fork : Fork) (i : AggIn) : List Cond :=
   R "aggregate signature valid" (!ctx || i.aggSig),
   I "block seen" i.blockKnown,
   R "block passes validation" (!i.bad),
-  R "target is the checkpoint ancestor of the LMD vote" (!i.blockKnown || i.targetSub == .unk || i.targetIsCkpt),
-  I "implied: target ancestry can be determined" (!i.blockKnown || i.targetSub != .unk),
+  R "target is the checkpoint ancestor of the LMD vote" (!i.blockKnown || i.targetSub == .unk ||
+      (i.targetSub != .no &&
+        targetIsCheckpoint (startSlot i.spe.toNat i.targetEpoch.toNat) ((i.blockRoot, i.blockSlot) :: i.ancestors) i.targetRoot)),
+  I "implied: target ancestry can be determined" (!i.blockKnown || (i.targetSub != .unk &&
+      (i.targetSub == .no ||
+        (checkpointOf (startSlot i.spe.toNat i.targetEpoch.toNat) ((i.blockRoot, i.blockSlot) :: i.ancestors)).isSome))),
   I "finalized checkpoint is an ancestor of the block" (!i.blockKnown || i.blockIsFin || i.finSub == .yes),
+  R "implied: LMD vote consistent (block slot <= attestation slot; validate_on_attestation)"
+      (!i.blockKnown || decide (i.blockSlot.toNat ≤ i.slot.toNat)),
   I "implied: vote not older than the finalized epoch when voting for the finalized block (stale)"
       (!i.blockIsFin || decide (i.finEpoch.toNat ≤ i.targetEpoch.toNat)),
   I "implied: target state can be reached (unknown target, else IGNORE)" i.towards,
